@@ -67,7 +67,11 @@ def gen(rng, tier):
     # clause's own Variable objects
     for i in range(60 if tier == 'quick' else 1200):
         cases.append(D.decorate_py(rng, D.gen_dbprog(rng, loopy=0.5)))
-    return cases
+    # round 4: size classes of the fact store (0-3, about 16, 32-64 facts; first arguments of every kind; bound and unbound
+    # first arguments in queries and retracts); clear() - API or Python predicate - while queries and retracts are suspended
+    extra = [D.gen_big_history(rng) for i in range(40 if tier == 'quick' else 500)]
+    extra += [D.gen_clear_history(rng) for i in range(40 if tier == 'quick' else 600)]
+    return D.spread(cases, extra)
 
 def builtin_corpus():
     a, b = ['a', 'a'], ['a', 'b']
